@@ -89,6 +89,8 @@ class Python_AES_CTR(AES):
         self.IV = IV
         self._counter_bytes = 16 - len(self.IV)
         self._counter = self.IV + bytearray(b'\x00' * self._counter_bytes)
+        # key stream generated for the last block but not used yet
+        self._keystream = bytearray()
 
     @property
     def counter(self):
@@ -97,6 +99,7 @@ class Python_AES_CTR(AES):
     @counter.setter
     def counter(self, ctr):
         self._counter = ctr
+        self._keystream = bytearray()
 
     def _counter_update(self):
         counter_int = bytesToNumber(self._counter) + 1
@@ -108,10 +111,11 @@ class Python_AES_CTR(AES):
 
     def encrypt(self, plaintext):
 
-        mask = bytearray()
+        mask = self._keystream
         while len(mask) < len(plaintext):
             mask += self.rijndael.encrypt(self._counter)
             self._counter_update()
+        self._keystream = mask[len(plaintext):]
         inp_bytes = bytearray(i ^ j for i, j in zip(plaintext, mask))
         return inp_bytes
 
